@@ -55,8 +55,7 @@ class Executor(Exec):
             body = pe.ev(comp.elt)
             if isinstance(body, SRef): raise Unsupported("set of mutable objects")
             bt = term_of(body)
-            y = z3.Const("y!sb", bt.sort())
-            mem = z3.Lambda([y], z3.Exists([x], z3.And(cond, y == bt)))
+            mem = S.set_builder_mem((x,), x, cond, bt)
             def fin(st3):
                 sv = SSetV(body.ty, mem)
                 if not mutable: return k(sv, st3)
@@ -312,8 +311,7 @@ class Executor(Exec):
             c = st.cell(v.ref)
             if v.kind == "keys": return SSetV(c.kty, c.dom)
             if v.kind == "values":
-                x = z3.Const("x!ts", S.sort_of(c.vty)); kk = z3.Const("k!ts", S.sort_of(c.kty))
-                return SSetV(c.vty, z3.Lambda([x], z3.Exists([kk], z3.And(c.dom[kk], c.val[kk] == x))))
+                return SSetV(c.vty, ops.vals_mem(c.kty, c.vty, c.dom, c.val))
         if isinstance(v, SSubSet):
             return SSetV(v.elem, st.cell(v.ref).val[v.key])
         raise Unsupported(f"set({v})")
